@@ -7,6 +7,8 @@ import CifModel.Lemmas.StoreRefineS
 import CifModel.Lemmas.StoreRefineR
 import CifModel.Lemmas.StoreRefineC
 import CifModel.Lemmas.StoreTotalS
+import CifModel.Lemmas.StoreWOk
+import CifModel.Lemmas.StoreRefineW
 import CifModel.Lemmas.StoreCodes
 import CifModel.Lemmas.StoreTree
 /-
@@ -912,93 +914,85 @@ example : countsAfter [.cifNew, .mkBlock 0 (some (nm (a!"b"))), .mkLoop 0 none [
     .addPkt 0 [(a!"_a", .na), (a!"_b", .unk)], .addPkt 0 [(a!"_a", .na), (a!"_zz", .unk)], .setVal 0 (some (nm (a!"_s"))) none] = [(2, 3, 3)] := by decide
 
 
--- ---- every packet has a value for every item of its loop (what fix e266ec6 of F30 established) ------------------------------------
+-- ---- the World-level invariant WOk and the documented contract ------------------------------------------------------------------------
 
-/-- the update in `op` (if it is one) goes through an iterator that is still attached to its loop: it stands on a packet the loop
-    has, and the names it took at cif_loop_get_packets are items of that loop.  cif.h promises nothing else: "behavior is undefined
-    if the underlying loop is accessed (even just for reading) other than via the iterator", and cif_loop_destroy invalidates "any
-    outstanding iterators over its contents". -/
-def UpdateAttached (w : World) (op : Op) : Prop :=
-  ∀ i p, op = .itUpd i p → ∀ e s, w.liveI i = some (e, s) → e.it.Attached s.db
+theorem okC_busy {w : World} {c : Nat} {s : Store} (hin : okC w c = true) (hl : w.liveC c = some s) : w.cifBusy c = false := by
+  unfold okC at hin; rw [hl] at hin; simpa using hin
+theorem okH_busy {w : World} {hh : Nat} {e : CHE} {s : Store} (hin : okH w hh = true) (hl : w.liveH hh = some (e, s)) :
+    w.cifBusy e.cif = false := by
+  unfold okH at hin; rw [hl] at hin; simp only [Bool.and_eq_true, Bool.not_eq_true'] at hin; exact hin.1
+theorem okL_busy {w : World} {l : Nat} {e : LHE} {s : Store} (hin : okL w l = true) (hl : w.liveL l = some (e, s)) :
+    w.cifBusy e.cif = false ∧ e.h.validB s.db = true := by
+  unfold okL at hin; rw [hl] at hin; simp only [Bool.and_eq_true, Bool.not_eq_true'] at hin; exact hin
 
-/-- Every op of a history keeps, in every managed CIF (content and every snapshot a rollback could restore), `Inv` and
-    PacketsTotal: every packet of every loop has a stored value for every item of the loop. -/
-theorem C04_packets_total_step (w : World) (op : Op) (h : WGood w) (hat : UpdateAttached w op) : WGood (step w op).1 := by
+/-- Every op that keeps to the documented contract (`inContract`, Model/StoreContract: valid handles; while an iterator is open on a
+    CIF only that iterator's calls work on it) keeps `WOk`: every managed CIF — content and every snapshot a rollback could restore —
+    satisfies `Inv`, PacketsTotal (every packet has a stored value for every item of its loop: what fix e266ec6 of F30 established),
+    RowsBelowAll (no stored row number above last_row_num) and ScalarCount (a scalar loop with last_row_num 1 has its packet); every
+    open iterator is tied to its store (`IterOk`: names, scalar flag, current row, rows to come); a CIF has at most one open iterator. -/
+theorem C04_wok_step (w : World) (op : Op) (h : WOk w) (hin : inContract w op = true) : WOk (step w op).1 := by
   cases op with
-  | cifNew =>
-    intro c s hs
-    simp only [step] at hs
-    by_cases hc : c < w.cifs.length
-    · exact h c s (by simpa [List.getD, List.getElem?_append_left hc] using hs)
-    · have hge : w.cifs.length ≤ c := by omega
-      simp only [List.getD, List.getElem?_append_right hge] at hs
-      cases hi : c - w.cifs.length with
-      | zero => simp [hi] at hs; subst hs; exact GoodS.empty
-      | succ k => simp [hi] at hs
+  | cifNew => exact h.cifNew rfl rfl
   | cifDel c =>
-    simp only [step]
-    split
+    simp only [step]; split
     · exact h
-    · intro c' s hs
-      simp only [] at hs
-      rcases getD_set_any _ _ _ _ _ hs with hx | hx
-      · cases hx
-      · exact h c' s hx
+    · rename_i s hl; exact h.cifDel c (okC_busy hin hl) rfl rfl
   | mkBlock c n =>
     simp only [step]; split
-    · exact h.of_cifs rfl
-    · rename_i s hl; exact (h.setCif c _ (createBlock_goodS (h.live hl) n false)).of_cifs rfl
+    · exact h.same rfl rfl
+    · rename_i s hl; exact h.setFree c _ (createBlock_goodS (h.good.live hl) n false) (okC_busy hin hl) rfl rfl
   | getBlock c n =>
     simp only [step]; split
-    · exact h.of_cifs rfl
-    · rename_i s hl; exact (h.setCif c _ (by rw [getBlock_fst]; exact h.live hl)).of_cifs rfl
+    · exact h.same rfl rfl
+    · rename_i s hl; exact h.setFree c _ (by rw [getBlock_fst]; exact h.good.live hl) (okC_busy hin hl) rfl rfl
   | blocks c =>
     simp only [step]; split
     · exact h
-    · rename_i s hl; exact h.setCif c _ (h.live hl)
+    · rename_i s hl; exact h.setFree c _ (h.good.live hl) (okC_busy hin hl) rfl rfl
   | mkFrame hh n =>
     simp only [step]; split
-    · exact h.of_cifs rfl
-    · rename_i e s hl; exact (h.setCif _ _ (createFrame_goodS (h.live (liveH_liveC hl)) e.h n false)).of_cifs rfl
+    · exact h.same rfl rfl
+    · rename_i e s hl; exact h.setFree _ _ (createFrame_goodS (h.good.live (liveH_liveC hl)) e.h n false) (okH_busy hin hl) rfl rfl
   | getFrame hh n =>
     simp only [step]; split
-    · exact h.of_cifs rfl
-    · rename_i e s hl; exact (h.setCif _ _ (by rw [getFrame_fst]; exact h.live (liveH_liveC hl))).of_cifs rfl
+    · exact h.same rfl rfl
+    · rename_i e s hl; exact h.setFree _ _ (by rw [getFrame_fst]; exact h.good.live (liveH_liveC hl)) (okH_busy hin hl) rfl rfl
   | frames hh =>
     simp only [step]; split
     · exact h
-    · rename_i e s hl; exact h.setCif _ _ (h.live (liveH_liveC hl))
+    · rename_i e s hl; exact h.setFree _ _ (h.good.live (liveH_liveC hl)) (okH_busy hin hl) rfl rfl
   | cdestroy hh =>
     simp only [step]; split
     · exact h
     · rename_i e s hl
       split
       · exact h
-      · exact (h.setCif _ _ (destroyContainer_goodS (h.live (liveH_liveC hl)) e.h)).of_cifs rfl
+      · exact h.setFree _ _ (destroyContainer_goodS (h.good.live (liveH_liveC hl)) e.h) (okH_busy hin hl) rfl rfl
   | code hh => simp only [step]; split <;> exact h
   | isBlock hh => simp only [step]; split <;> exact h
   | mkLoop hh cat names =>
     simp only [step]; split
-    · exact h.of_cifs rfl
-    · rename_i e s hl; exact (h.setCif _ _ (createLoop_goodS (h.live (liveH_liveC hl)) e.h cat names)).of_cifs rfl
+    · exact h.same rfl rfl
+    · rename_i e s hl; exact h.setFree _ _ (createLoop_goodS (h.good.live (liveH_liveC hl)) e.h cat names) (okH_busy hin hl) rfl rfl
   | catLoop hh cat =>
     simp only [step]; split
-    · exact h.of_cifs rfl
-    · rename_i e s hl; exact (h.setCif _ _ (by rw [getCategoryLoop_fst]; exact h.live (liveH_liveC hl))).of_cifs rfl
+    · exact h.same rfl rfl
+    · rename_i e s hl; exact h.setFree _ _ (by rw [getCategoryLoop_fst]; exact h.good.live (liveH_liveC hl)) (okH_busy hin hl) rfl rfl
   | itemLoop hh n =>
     simp only [step]; split
-    · exact h.of_cifs rfl
-    · rename_i e s hl; exact (h.setCif _ _ (by rw [getItemLoop_fst]; exact h.live (liveH_liveC hl))).of_cifs rfl
+    · exact h.same rfl rfl
+    · rename_i e s hl; exact h.setFree _ _ (by rw [getItemLoop_fst]; exact h.good.live (liveH_liveC hl)) (okH_busy hin hl) rfl rfl
   | loops hh =>
     simp only [step]; split
     · exact h
     · rename_i e s hl
-      have h1 := allLoops_goodS (h.live (liveH_liveC hl)) e.h
+      have hb := okH_busy hin hl
+      have h1 := allLoops_goodS (h.good.live (liveH_liveC hl)) e.h
       split
-      · rename_i s1 c1 he; rw [he] at h1; exact h.setCif _ _ h1
+      · rename_i s1 c1 he; rw [he] at h1; exact h.setFree _ _ h1 hb rfl rfl
       · rename_i s1 ls he
         rw [he] at h1
-        refine h.setCif _ _ ?_
+        refine h.setFree _ _ ?_ hb rfl rfl
         -- the caller's get_names on each returned handle
         have : ∀ (ls : List LH) (acc : Store × List (Option Str × Option (List Str))), GoodS acc.1 →
             GoodS (ls.foldl (fun (acc : Store × List (Option Str × Option (List Str))) l =>
@@ -1020,93 +1014,157 @@ theorem C04_packets_total_step (w : World) (op : Op) (h : WGood w) (hat : Update
   | prune hh =>
     simp only [step]; split
     · exact h
-    · rename_i e s hl; exact h.setCif _ _ (prune_goodS (h.live (liveH_liveC hl)) e.h)
+    · rename_i e s hl; exact h.setFree _ _ (prune_goodS (h.good.live (liveH_liveC hl)) e.h) (okH_busy hin hl) rfl rfl
   | getVal hh n =>
     simp only [step]; split
     · exact h
     · rename_i e s hl
+      have hb := okH_busy hin hl
       split
       · exact h
       · rename_i nm
         have hf := getValue_fst s e.h (some nm)
         split
-        · rename_i s1 v amb he; rw [he] at hf; simp only [] at hf; subst hf; exact h.setCif _ _ (h.live (liveH_liveC hl))
-        · rename_i s1 c1 he; rw [he] at hf; simp only [] at hf; subst hf; exact h.setCif _ _ (h.live (liveH_liveC hl))
+        · rename_i s1 v amb he; rw [he] at hf; simp only [] at hf; subst hf; exact h.setFree _ _ (h.good.live (liveH_liveC hl)) hb rfl rfl
+        · rename_i s1 c1 he; rw [he] at hf; simp only [] at hf; subst hf; exact h.setFree _ _ (h.good.live (liveH_liveC hl)) hb rfl rfl
   | setVal hh n v =>
     simp only [step]; split
     · exact h
-    · rename_i e s hl; exact h.setCif _ _ (setValue_goodS (h.live (liveH_liveC hl)) e.h n v)
+    · rename_i e s hl; exact h.setFree _ _ (setValue_goodS (h.good.live (liveH_liveC hl)) e.h n v) (okH_busy hin hl) rfl rfl
   | rmItem hh n =>
     simp only [step]; split
     · exact h
-    · rename_i e s hl; exact h.setCif _ _ (removeItem_goodS (h.live (liveH_liveC hl)) e.h n)
+    · rename_i e s hl; exact h.setFree _ _ (removeItem_goodS (h.good.live (liveH_liveC hl)) e.h n) (okH_busy hin hl) rfl rfl
   | ldestroy l =>
     simp only [step]; split
     · exact h
     · rename_i e s hl
       split
       · exact h
-      · exact (h.setCif _ _ (destroyLoop_goodS (h.live (liveL_liveC hl)) e.h)).of_cifs rfl
+      · exact h.setFree _ _ (destroyLoop_goodS (h.good.live (liveL_liveC hl)) e.h) (okL_busy hin hl).1 rfl rfl
   | getCat l => simp only [step]; split <;> exact h
   | setCat l cat =>
     simp only [step]; split
     · exact h
-    · rename_i e s hl; exact (h.setCif _ _ (setCategory_goodS (h.live (liveL_liveC hl)) e.h cat)).of_cifs rfl
+    · rename_i e s hl; exact h.setFree _ _ (setCategory_goodS (h.good.live (liveL_liveC hl)) e.h cat) (okL_busy hin hl).1 rfl rfl
   | names l =>
     simp only [step]; split
     · exact h
-    · rename_i e s hl; exact h.setCif _ _ (getNames_goodS (h.live (liveL_liveC hl)) e.h)
+    · rename_i e s hl; exact h.setFree _ _ (getNames_goodS (h.good.live (liveL_liveC hl)) e.h) (okL_busy hin hl).1 rfl rfl
   | addItem l n v =>
     simp only [step]; split
     · exact h
     · rename_i e s hl
       split
       · exact h
-      · exact h.setCif _ _ (addItem_goodS (h.live (liveL_liveC hl)) e.h _ v)
+      · exact h.setFree _ _ (addItem_goodS (h.good.live (liveL_liveC hl)) e.h _ v) (okL_busy hin hl).1 rfl rfl
   | addPkt l p =>
     simp only [step]; split
     · exact h
-    · rename_i e s hl; exact h.setCif _ _ (addPacket_goodS (h.live (liveL_liveC hl)) e.h p)
+    · rename_i e s hl
+      have hin' : okL w l = true := by
+        have : (okL w l && keysDistinct p) = true := hin
+        simp only [Bool.and_eq_true] at this; exact this.1
+      exact h.setFree _ _ (addPacket_goodS (h.good.live (liveL_liveC hl)) e.h p) (okL_busy hin' hl).1 rfl rfl
   | itOpen l =>
     simp only [step]; split
-    · exact h.of_cifs rfl
-    · rename_i e s hl; exact (h.setCif _ _ (getPackets_goodS (h.live (liveL_liveC hl)) e.h)).of_cifs rfl
-  | itNext i => simp only [step]; split <;> exact h.of_cifs rfl
+    · exact h.itNone rfl rfl
+    · rename_i e s hl; exact h.itOpen l e s hl (okL_busy hin hl).1 (okL_busy hin hl).2 rfl rfl
+  | itNext i =>
+    simp only [step]; split
+    · exact h
+    · rename_i e s hl; exact h.itNext i e s hl rfl rfl
   | itUpd i p =>
     simp only [step]; split
     · exact h
-    · rename_i e s hl; exact h.setCif _ _ (updatePacket_goodS (h.live (liveI_liveC hl)) e.it p (hat i p rfl e s hl))
+    · rename_i e s hl; exact h.itUpd i e s p hl rfl rfl
   | itRem i =>
     simp only [step]; split
     · exact h
-    · rename_i e s hl; exact (h.setCif _ _ (removePacket_goodS (h.live (liveI_liveC hl)) e.it)).of_cifs rfl
+    · rename_i e s hl; exact h.itRem i e s hl rfl rfl
   | itClose i =>
     simp only [step]; split
     · exact h
-    · rename_i e s hl; exact (h.setCif _ _ (closeIter_goodS (h.live (liveI_liveC hl)))).of_cifs rfl
+    · rename_i e s hl; exact h.itEnd i e s _ hl (closeIter_goodS (h.good.live (liveI_liveC hl))) rfl rfl
   | itAbort i =>
     simp only [step]; split
     · exact h
-    · rename_i e s hl; exact (h.setCif _ _ (abortIter_goodS (h.live (liveI_liveC hl)))).of_cifs rfl
+    · rename_i e s hl; exact h.itEnd i e s _ hl (abortIter_goodS (h.good.live (liveI_liveC hl))) rfl rfl
 
-def UpdatesAttached : World → List Op → Prop
-  | _, [] => True
-  | w, op :: ops => UpdateAttached w op ∧ UpdatesAttached (step w op).1 ops
+/-- a fresh history satisfies WOk -/
+theorem C04_wok_init : WOk {} := WOk.empty
 
-/-- PacketsTotal is an invariant of all API histories whose iterator updates go through attached iterators -/
-theorem C04_packets_total : ∀ (ops : List Op) (w : World), WGood w → UpdatesAttached w ops → WGood (run w ops).1
+/-- WOk is an invariant of every history that keeps to the contract -/
+theorem C04_wok_hist : ∀ (ops : List Op) (w : World), WOk w → inContractHist w ops = true → WOk (run w ops).1
   | [], w, h, _ => h
-  | op :: ops, w, h, ha => by
+  | op :: ops, w, h, hc => by
     unfold run
-    exact C04_packets_total ops _ (C04_packets_total_step w op h ha.1) ha.2
+    have hc' : (inContract w op && inContractHist (step w op).1 ops) = true := hc
+    simp only [Bool.and_eq_true] at hc'
+    exact C04_wok_hist ops _ (C04_wok_step w op h hc'.1) hc'.2
 
-theorem C04_packets_total_init : WGood {} := WGood.empty
-
-/-- what it says about one CIF -/
-theorem C04_packets_total_reads (w : World) (h : WGood w) (c : Nat) (s : Store) (hs : w.cifs.getD c none = some s) :
+/-- what WOk says about one CIF: every packet of every loop has a stored value for every item of the loop … -/
+theorem C04_packets_total (w : World) (h : WOk w) (c : Nat) (s : Store) (hs : w.cifs.getD c none = some s) :
     ∀ x ∈ s.db.loops, ∀ r ∈ s.db.loopRows x.cid x.loopNum, ∀ j ∈ s.db.loopItems x.cid x.loopNum, s.db.hasValue x.cid j.name r = true :=
-  (h c s hs).db.total
+  (h.good c s hs).db.total
 
+/-- … no stored row number of a loop exceeds its last_row_num (the hypothesis `RowsBelow` of `C04_refines_add_packet` and
+    `C04_code_add_packet`), and the scalar loop's last_row_num counts its packet (the other hypothesis of `C04_code_add_packet`) -/
+theorem C04_rows_below (w : World) (h : WOk w) (c : Nat) (s : Store) (hs : w.cifs.getD c none = some s) :
+    (∀ cid ln, RowsBelow s.db cid ln) ∧
+    (∀ x ∈ s.db.loops, x.category = some [] → (1 ≤ x.lastRowNum ↔ s.db.loopRows x.cid x.loopNum ≠ [])) :=
+  ⟨fun cid ln => (h.good c s hs).db.rows.rb.at cid ln, fun x hx hsx => (h.good c s hs).db.rows.scalar_count (h.good c s hs).db.inv x hx hsx⟩
+
+/-- … and every live iterator stands on a packet its loop has (the side condition `Iter.Attached` that cif_pktitr_update_packet
+    needs to keep PacketsTotal) with the item names of that loop and a `scalar` flag true to the stored category -/
+theorem C04_iterator_tied (w : World) (h : WOk w) (i : Nat) (e : ITE) (s : Store) (hl : w.liveI i = some (e, s)) :
+    IterOk e.it s.db := h.iters.of_liveI hl
+
+-- ---- the loop-level theorems with their hypotheses discharged by WOk and the contract ------------------------------------------------
+
+/-- cif_loop_add_packet in a world satisfying WOk, the op in contract: code and effect are the documented model's, and nothing about
+    the history is assumed — RowsBelow, the scalar count and the handle's loop come from `WOk` / `inContract`.  (Remaining
+    hypothesis: item names are stored normalised, `ItemsNormOK norm` — `norm` is C09's and the names come from the caller.) -/
+theorem C04_add_packet_in_contract (norm : Str → Str) (w : World) (l : Nat) (p : List (Str × V)) (h : WOk w)
+    (hin : inContract w (.addPkt l p) = true) (e : LHE) (s : Store) (hl : w.liveL l = some (e, s)) (hn : ItemsNormOK norm s.db) :
+    ∃ x ∈ s.db.loops, x.cid = e.h.cid ∧ x.loopNum = e.h.loopNum ∧
+      (addPacket s e.h p).2 = ((absLoop s.db x).specAddPacket norm p).map (fun _ => ()) ∧
+      (match (addPacket s e.h p).2 with
+       | .ok _ => (∀ cid', absLoops (addPacket s e.h p).1.db cid' = (s.db.loops.filter (fun y => y.cid == cid')).map (fun y =>
+                    if y.cid == e.h.cid && y.loopNum == e.h.loopNum then
+                      { absLoop s.db y with packets := (absLoop s.db y).packets ++ [packetFor s.db e.h.cid e.h.loopNum p] }
+                    else absLoop s.db y)) ∧
+                  (addPacket s e.h p).1.db.frames = s.db.frames ∧ (addPacket s e.h p).1.db.blocks = s.db.blocks
+       | .error _ => (addPacket s e.h p).1.db = s.db) := by
+  have hin' : (okL w l && keysDistinct p) = true := hin
+  simp only [Bool.and_eq_true] at hin'
+  exact addPacket_good norm s e.h p (h.good.live (liveL_liveC hl)).db (okL_busy hin'.1 hl).2 hin'.2 hn
+
+/-- cif_loop_set_category in a world satisfying WOk, the op in contract: the documented model's code -/
+theorem C04_set_category_in_contract (w : World) (l : Nat) (cat : Option Str) (h : WOk w)
+    (hin : inContract w (.setCat l cat) = true) (e : LHE) (s : Store) (hl : w.liveL l = some (e, s)) :
+    ∃ x ∈ s.db.loops, x.cid = e.h.cid ∧ x.loopNum = e.h.loopNum ∧
+      (Store.setCategory s e.h cat).2.2 = ((absLoop s.db x).specSetCategory cat).map (fun _ => ()) :=
+  setCategory_good s e.h cat (h.good.live (liveL_liveC hl)).db (okL_busy hin hl).2
+
+/-- in every CIF of a world satisfying WOk, cif_container_get_value sees exactly the item's column of the documented model
+    (`hcomplete` of `C04_refines_get_value` is PacketsTotal), and removing an item that is not its loop's last keeps every packet
+    (`hcomplete` of `C04_refines_remove_item`) -/
+theorem C04_get_value_in_wok (w : World) (h : WOk w) (c : Nat) (s : Store) (hs : w.cifs.getD c none = some s)
+    (x : LoopRow) (hx : x ∈ s.db.loops) (i : ItemRow) (hi : i ∈ s.db.loopItems x.cid x.loopNum) :
+    (s.db.valuesOf x.cid i.name).map (·.val) = absColumn s.db x i :=
+  getValue_good s.db (h.good c s hs).db x hx i hi
+
+theorem C04_remove_item_in_wok (w : World) (h : WOk w) (c : Nat) (s : Store) (hs : w.cifs.getD c none = some s)
+    (x : LoopRow) (i j0 : ItemRow) (hx : x ∈ s.db.loops) (hi : i ∈ s.db.loopItems x.cid x.loopNum)
+    (hj0 : j0 ∈ s.db.loopItems x.cid x.loopNum) (hne0 : j0.name ≠ i.name) :
+    let d' := s.db.removeItem x.cid i.name
+    let keep := (s.db.loopItems x.cid x.loopNum).filter (fun j => !(j.name == i.name))
+    absLoop d' x = { category := x.category, names := keep.map (·.nameOrig),
+                     packets := (s.db.loopRows x.cid x.loopNum).map (fun r => keep.map (fun j => cell s.db x.cid j r)) } ∧
+    (∀ y ∈ s.db.loops, ¬(y.cid = x.cid ∧ y.loopNum = x.loopNum) → absLoop d' y = absLoop s.db y) ∧
+    d'.loops = s.db.loops ∧ d'.frames = s.db.frames ∧ d'.blocks = s.db.blocks :=
+  removeItem_good s.db (h.good c s hs).db x i j0 hx hi hj0 hne0
 
 -- ---- failure-code agreement with Spec/DataModel (loop level) ---------------------------------------------------------------------
 
